@@ -217,8 +217,11 @@ class Machine:
             if h[0] == 'derive':
                 trait = h[1]
                 if not params:
-                    continue
-                selfty = type_base(params[0][1]).rsplit('::', 1)[-1]
+                    if not ret or ret == '()':
+                        continue
+                    selfty = type_base(ret).rsplit('::', 1)[-1]
+                else:
+                    selfty = type_base(params[0][1]).rsplit('::', 1)[-1]
                 method = rest[2:]
                 if '::' in method:
                     continue
